@@ -23,7 +23,10 @@ func RemoveTempName(in string) string {
 }
 
 func EscapeDotGraph(in string) string {
-	res := strings.ReplaceAll(in, "<", "\\<")
-	res = strings.ReplaceAll(res, ">", "\\>")
+	res := in
+	// characters with a meaning inside a record label, and the string quote
+	for _, ch := range []string{"<", ">", "{", "}", "|", "\""} {
+		res = strings.ReplaceAll(res, ch, "\\"+ch)
+	}
 	return res
 }
